@@ -18,7 +18,7 @@ def session_scenario(rng, purpose="rewind", allow_spend=True):
     """-> scenario without schedule"""
     fam = rng.weighted([
         (30, "mixed"), (14, "if-heavy"), (8, "alt-heavy"), (8, "codesep"), (8, "sig"), (5, "opcount"), (4, "bigstack"),
-        (8, "disabled"), (5, "tiny"), (10 if allow_spend else 0, "dataset"),
+        (8, "disabled"), (5, "tiny"), (6 if allow_spend else 0, "dataset"), (24 if allow_spend else 0, "spend"),
     ])
     scn = {"family": fam, "opts": [], "stack": [], "spend": None, "observe": True, "tty": [1, 1], "env": {}}
     flags_off = []
@@ -26,6 +26,16 @@ def session_scenario(rng, purpose="rewind", allow_spend=True):
         scn["spend"] = {"dataset": rng.choice(session.DATASETS)}
         scn["script"] = None
         if rng.chance(25):
+            scn["opts"].append("--quiet")
+        return scn
+    if fam == "spend":
+        from . import spend
+        sp = spend.make(rng)
+        scn["spend"] = {"tx": sp["tx"], "txin": sp["txin"]}
+        scn["spend_kind"] = sp["kind"]
+        scn["script"] = None
+        scn["opts"] = list(sp["opts"])
+        if rng.chance(15):
             scn["opts"].append("--quiet")
         return scn
     if rng.chance(25):
